@@ -22,7 +22,8 @@ FLAVORS = ["bmc_json", "bmc_text", "bmc_other", "noparser", "fx_ok", "fx_raise",
 
 def plan(tier, seed):
     per = 700 if tier == "quick" else 25000
-    specs = [{"mode": "random", "n": per, "rseed": seed * 1000 + i, "registry": i % 4 != 3} for i in range(14)]
+    specs = [{"mode": "random", "n": per, "rseed": seed * 1000 + i, "registry": i % 4 != 3} for i in range(13)]
+    specs.append({"mode": "cli", "n": 30 if tier == "quick" else 600, "rseed": seed * 1000 + 700})
     specs.append({"mode": "sweep", "rseed": seed * 1000 + 800, "reps": 1 if tier == "quick" else 20})
     specs.append({"mode": "sweep", "rseed": seed * 1000 + 801, "reps": 1 if tier == "quick" else 20, "registry": False})
     return specs
@@ -36,6 +37,8 @@ def minimums(tier):
         m["ud.flavor.%s.noplugins" % fl] = 50
     m["ud.flavor.hexonly.plugins"] = 500
     m["ud.flavor.unknown-id.plugins"] = 500
+    m["cli.runs"] = 50
+    m["cli.nonascii_values_checked"] = 50
     return m
 
 
@@ -48,6 +51,8 @@ def run(spec, ctx):
     rng = random.Random(spec["rseed"])
     u = pm.Uniq(spec["shard"] * 10_000_000)
     reg = harness.registry_model()
+    if spec["mode"] == "cli":
+        return run_cli(spec, ctx, rng, u)
     if spec["mode"] == "random":
         for _ in range(spec["n"]):
             plugins = rng.random() < 0.7
@@ -79,3 +84,61 @@ def run(spec, ctx):
         # all byte values, one per section, at the printable boundaries of the dump's text column
         for b in range(256):
             one([pm.sec_ud(rng, u, "M", 0x0001, 0, 0, bytes([b]) * rng.choice([1, 16, 17]))], "M")
+
+
+NONASCII = ["41 \u00b0C", "caf\u00e9", "\u20ac 5", "\u65e5\u672c", "\U0001f600", "\ud83d", "x\udc00y", "\u2028", "\u0085 nel", "\u00ff\u0100"]
+
+
+def run_cli(spec, ctx, rng, u):
+    """the same sections through `peltool.py -f` in a subprocess whose stdout is a pipe/file with different encodings:
+    the section must still appear (JSON value equal, dump recoverable)"""
+    import json
+    import os
+    import subprocess
+    from vf import env
+    root = harness.scratch_root()
+    for i in range(spec["n"]):
+        doc = {u.token(6): rng.choice(NONASCII) + rtext_ascii(rng), u.token(6) + rng.choice(["\u00e9", "\ud83d", ""]): [rng.choice(NONASCII), 5]}
+        raw = json.dumps(doc, ensure_ascii=rng.random() < 0.5)
+        try:
+            payload = gen.nul_pad(raw.encode("utf-8"))
+        except UnicodeEncodeError:
+            payload = gen.nul_pad(json.dumps(doc).encode("ascii"))        # lone surrogates can only be written escaped
+        dump_payload = pm.gen_payload(rng, u, rng.choice([5, 16, 260]))
+        secs = [pm.sec_ud(rng, u, "O", 0x2000, 1, 1, payload, expect_mode="json"), pm.sec_ud(rng, u, "O", 0x1234, 7, 7, dump_payload)]
+        pel = pm.Pel("O", pm.gen_ph(rng, u, "O"), pm.gen_uh(rng, "O"), secs)
+        path = os.path.join(root, "nonascii_%d.pel" % i)
+        with open(path, "wb") as f:
+            f.write(pel.encode())
+        for envx in ({}, {"PYTHONIOENCODING": "ascii"}, {"PYTHONIOENCODING": "latin-1"}, {"LC_ALL": "C", "PYTHONUTF8": "0", "PYTHONCOERCECLOCALE": "0"}):
+            ctx.current = {"argv": ["-f", "<pel>", "-E"], "env": envx, "json_user_data": raw[:300]}
+            ctx.case(raw + repr(sorted(envx.items())), True, sample={"env": envx, "json_user_data": raw[:120]} if i < 2 else None)
+            p = harness.cli_sub(["-f", path, "-E"], extra_env=envx)
+            ctx.count("cli.runs")
+            if p is None:
+                continue
+            try:
+                out = json.loads(p.stdout.decode(envx.get("PYTHONIOENCODING", "utf-8"), "surrogateescape"))
+            except Exception:
+                out = None
+            if not isinstance(out, dict):
+                ctx.violation("C04/cli-section-lost", "peltool -f printed no document for a PEL whose JSON user data holds non-ASCII "
+                              "text (env %s): rc=%d stderr=%r" % (envx, p.returncode, p.stderr.decode("utf-8", "replace")[-300:]))
+                continue
+            ud0, ud1 = out.get("User Data 0", {}), out.get("User Data 1", {})
+            ctx.count("cli.nonascii_values_checked")
+            bad = [k for k, v in doc.items() if ud0.get(k) != v]
+            if bad:
+                ctx.violation("C04/cli-json-value", "JSON user data key %r shown as %r, the section holds %r (env %s)" %
+                              (bad[0], ud0.get(bad[0]), doc[bad[0]], envx))
+            try:
+                ok = pm.parse_dump(ud1.get("Data")) == dump_payload
+            except ValueError:
+                ok = False
+            if not ok:
+                ctx.violation("C04/cli-dump", "hex dump of the following section cannot be recovered (env %s)" % (envx,))
+        os.unlink(path)
+
+
+def rtext_ascii(rng):
+    return "".join(rng.choice("abc XYZ09") for _ in range(rng.randrange(0, 6)))
